@@ -481,6 +481,20 @@ def gen_acyclic(rng, maxc=12, feedback=True):
     return dict(blocks=blocks, bursts=bursts)
 
 
+def gen_long_chain(rng):
+    """one Input feeding a chain of 205..260 Not blocks, the end of the chain reconverging with the input
+    in an Xor: a single change makes more than 200 evaluations in one settling round"""
+    n = rng.randrange(205, 261)
+    blocks = [dict(name='s0', kind='input', init=["b", rng.random() < 0.5])]
+    prev = 's0'
+    for k in range(n):
+        blocks.append(dict(name=f"n{k}", kind='not', ins={'_': [[rng.choice(['name', 'obj']), prev]]}, events=[]))
+        prev = f"n{k}"
+    blocks.append(dict(name='x', kind='xor', ins={'_': [['obj', prev], ['name', 's0']]}, events=[]))
+    bursts = [[['s0', 'put', ["b", v]]] for v in rng.choice([[True, False, True], [False, True], [True, True, False]])]
+    return dict(blocks=blocks, bursts=bursts)
+
+
 def gen_small_exhaustive(maxc):
     """all chains/fans of <= maxc boolean cblocks over two Inputs x all input vectors x single changes"""
     import itertools
@@ -519,6 +533,7 @@ def check(run):
                 "x all single changes. Non-trivial = >= 3 evaluations; distinct by JSON.")
     n = 350 if run.tier == 'quick' else 9000
     cases = [gen_acyclic(run.rng) for _ in range(n)]
+    cases += [gen_long_chain(run.rng) for _ in range(3 if run.tier == 'quick' else 40)]
     small = list(gen_small_exhaustive(2 if run.tier == 'quick' else 3))
     if run.tier == 'quick':
         small = small[::4]
